@@ -12,6 +12,20 @@ def Vars.tags : Vars → List Bytes
   | .nil => []
   | .cons t _ r => t :: r.tags
 
+/-- the names of the members that are child elements: the arms of the `match x { … }` of a struct deserialiser
+(a member bound to an attribute has no arm) -/
+def Flds.elemTags : Flds → List Bytes
+  | .nil => []
+  | .cons t _ sh _ r => (match sh with | .attr => [] | _ => [t]) ++ r.elemTags
+
+/-- `xmlns`: the attribute `content_with_ns` writes in front of the attributes of a root -/
+def xmlnsKey : Bytes := [120, 109, 108, 110, 115]
+
+/-- an attribute name that quick-xml's attribute iterator reads back as it was written — not empty, no `=`, no white
+space — and that is not the name of a namespace declaration written next to it (`xmlns:xsi`, `xmlns`) -/
+def attrKeyOk (k : Bytes) : Bool :=
+  !k.isEmpty && k.all (fun c => !(c = 61 || isWs c)) && k != xmlnsXsiKey && k != xmlnsKey
+
 /-- pairwise distinct, as a Bool that reduces in the kernel -/
 def distinct : List Bytes → Bool
   | [] => true
@@ -19,14 +33,15 @@ def distinct : List Bytes → Bool
 
 mutual
   /-- the member tags of every struct and the variant tags of every union are pairwise distinct
-  (otherwise the `match x { b"A" => …, b"A" => … }` of the deserialiser would shadow a member) -/
+  (otherwise the `match x { b"A" => …, b"A" => … }` of the deserialiser would shadow a member, or two members would
+  be bound to one attribute), and the name of a member bound to an attribute is a plain attribute name -/
   def Sch.wf : Sch → Bool
     | .struct fs => distinct fs.tags && fs.wf
     | .union vs => distinct vs.tags && vs.wf
     | _ => true
   def Flds.wf : Flds → Bool
     | .nil => true
-    | .cons _ _ _ s r => s.wf && r.wf
+    | .cons t _ sh s r => s.wf && (r.wf && (match sh with | .attr => attrKeyOk t | _ => true))
   def Vars.wf : Vars → Bool
     | .nil => true
     | .cons _ s r => s.wf && r.wf
